@@ -224,7 +224,7 @@ def cases(draw):
     _ = full
     return {
         "site": site,
-        "basic": draw(st.sampled_from([True, True, False])),
+        "basic": draw(st.booleans()),
         "caps": caps,
         "group": group,
         "kind": kind,
@@ -277,7 +277,7 @@ def prop_structure(spec, rec):
 
 def subchecks(tier):
     return [
-        Given("frontier", cases(), prop, quick=320, thorough=30000, floors={"near_rating": 0.3, "at_rating": 0.1, "linear": 0.1, "real_evse": 0.15}, jobs_quick=8),
+        Given("frontier", cases(), prop, quick=320, thorough=30000, floors={"near_rating": 0.2, "at_rating": 0.1, "linear": 0.1, "real_evse": 0.12}, jobs_quick=8),
         Exhaustive("structure", structure_items, prop_structure, jobs_quick=2),
     ]
 
